@@ -1199,7 +1199,33 @@ fn img(f: &Fm, a: i128) -> i128 {
     a << (fm(f.sg).bits - f.bits)
 }
 /// offset (in the Signed format) that keeps every channel's sum representable
-fn rand_offset(rng: &mut Rng, f: &Fm, xs: &[V]) -> V {
+/// `plain` excludes the special amplitudes (zero offsets; gains 0.0, -0.0, +-1.0 and tiny ones), so that the one
+/// repetition the quick tier affords per (format, width) cannot happen to be an identity
+fn rand_offset(rng: &mut Rng, f: &Fm, xs: &[V], plain: bool) -> V {
+    for _ in 0..50 {
+        let v = rand_offset_any(rng, f, xs, plain);
+        let zero = match v {
+            V::I(a) => a == 0,
+            V::F(x) => x == 0.0 || x.abs() < 1e-6,
+        };
+        if !plain || !zero {
+            return v;
+        }
+    }
+    rand_offset_any(rng, f, xs, plain)
+}
+fn rand_gain(rng: &mut Rng, f: &Fm, xs: &[V], plain: bool) -> V {
+    for _ in 0..50 {
+        let v = rand_gain_any(rng, f, xs, plain);
+        if let V::F(g) = v {
+            if !plain || (g != 0.0 && g.abs() != 1.0 && g.abs() > 1e-6) {
+                return v;
+            }
+        }
+    }
+    V::F(0.375)
+}
+fn rand_offset_any(rng: &mut Rng, f: &Fm, xs: &[V], plain: bool) -> V {
     let s = fm(f.sg);
     if f.float {
         return V::F(rand_float(rng, &s, 2.0));
@@ -1211,10 +1237,10 @@ fn rand_offset(rng: &mut Rng, f: &Fm, xs: &[V]) -> V {
             hi = hi.min(s.half() - 1 - img(f, *a));
         }
     }
-    V::I(if rng.chance(1, 12) { 0 } else { rand_amp_in(rng, lo, hi) })
+    V::I(if !plain && rng.chance(1, 12) { 0 } else { rand_amp_in(rng, lo, hi) })
 }
 /// gain (in the Float format) that keeps |x * g| < 1 for every channel
-fn rand_gain(rng: &mut Rng, f: &Fm, xs: &[V]) -> V {
+fn rand_gain_any(rng: &mut Rng, f: &Fm, xs: &[V], plain: bool) -> V {
     let fl = fm(f.fl);
     if f.float {
         return V::F(rand_float(rng, &fl, 2.0));
@@ -1225,7 +1251,7 @@ fn rand_gain(rng: &mut Rng, f: &Fm, xs: &[V]) -> V {
             m = m.max((*a as f64 / f.half() as f64).abs());
         }
     }
-    let g = match rng.below(12) {
+    let g = match if plain { 3 + rng.below(9) } else { rng.below(12) } {
         0 => 0.0,
         1 => 1.0,
         2 => -0.0,
@@ -1254,20 +1280,27 @@ fn rand_gain(rng: &mut Rng, f: &Fm, xs: &[V]) -> V {
 fn gen(seed: u64, size: &str, path: &str) {
     let mut rng = Rng::new(seed ^ 0xf4a3e);
     let thorough = size == "thorough";
-    let reps = if thorough { 5 } else { 1 };
-    let sample_reps = if thorough { 400 } else { 40 };
+    let reps = if thorough { 12 } else { 2 };
+    let sample_reps = if thorough { 1500 } else { 40 };
     let mut execs: Vec<Vec<Value>> = Vec::new();
     let reset = |comp: &str, f: &Fm, n: usize, tag: &str| json!({"ev":"reset","comp":comp,"cfg":{"src":"rand","fmt":f.name,"n":n,"tag":tag}});
+    // HX_PART=frame|slice restricts the file to one property's stimuli (default: both)
+    let part = std::env::var("HX_PART").unwrap_or_default();
+    let frames_wanted = part.is_empty() || part == "frame";
+    let slices_wanted = part.is_empty() || part == "slice";
+    let none: [Fm; 0] = [];
+    let frame_fmts: &[Fm] = if frames_wanted { &FMTS } else { &none };
+    let slice_fmts: &[Fm] = if slices_wanted { &FMTS } else { &none };
 
     // ---- C03: samples
-    for f in FMTS.iter() {
+    for f in frame_fmts.iter() {
         let (sg, fl) = (fm(f.sg), fm(f.fl));
         let mut ex = vec![reset("frame", f, 0, "samples")];
         ex.push(json!({"ev":"s_consts","a":{"fmt":f.name}}));
         for _ in 0..sample_reps {
             let s = rand_sample(&mut rng, f);
-            let off = rand_offset(&mut rng, f, &[s]);
-            let g = rand_gain(&mut rng, f, &[s]);
+            let off = rand_offset(&mut rng, f, &[s], false);
+            let g = rand_gain(&mut rng, f, &[s], false);
             ex.push(json!({"ev":"s_add_amp","a":{"fmt":f.name,"s":vj(f,s),"amp":vj(&sg,off)}}));
             ex.push(json!({"ev":"s_mul_amp","a":{"fmt":f.name,"s":vj(f,s),"amp":vj(&fl,g)}}));
             ex.push(json!({"ev":"s_to_signed","a":{"fmt":f.name,"s":vj(f,s)}}));
@@ -1276,24 +1309,25 @@ fn gen(seed: u64, size: &str, path: &str) {
         execs.push(ex);
     }
     // ---- C03: frames, every width on every format (n = 0: the bare sample)
-    for f in FMTS.iter() {
+    for f in frame_fmts.iter() {
         let (sg, fl) = (fm(f.sg), fm(f.fl));
         for n in 0..=32usize {
             let nn = n.max(1);
             let mut ex = vec![reset("frame", f, n, "frames")];
             let frame = |rng: &mut Rng| -> Vec<V> { (0..nn).map(|_| rand_sample(rng, f)).collect() };
-            for _ in 0..reps {
+            for rep in 0..reps {
+                let plain = rep == 0; // the first repetition never uses an identity amplitude
                 let x = frame(&mut rng);
-                let off = rand_offset(&mut rng, f, &x);
+                let off = rand_offset(&mut rng, f, &x, plain);
                 ex.push(json!({"ev":"f_offset","a":{"fmt":f.name,"n":n,"x":vjs(f,&x),"amp":vj(&sg,off)}}));
                 let x = frame(&mut rng);
-                let g = rand_gain(&mut rng, f, &x);
+                let g = rand_gain(&mut rng, f, &x, plain);
                 ex.push(json!({"ev":"f_scale","a":{"fmt":f.name,"n":n,"x":vjs(f,&x),"amp":vj(&fl,g)}}));
                 let x = frame(&mut rng);
-                let y: Vec<V> = x.iter().map(|s| rand_offset(&mut rng, f, &[*s])).collect();
+                let y: Vec<V> = x.iter().map(|s| rand_offset(&mut rng, f, &[*s], plain)).collect();
                 ex.push(json!({"ev":"f_add","a":{"fmt":f.name,"n":n,"x":vjs(f,&x),"y":vjs(&sg,&y)}}));
                 let x = frame(&mut rng);
-                let y: Vec<V> = x.iter().map(|s| rand_gain(&mut rng, f, &[*s])).collect();
+                let y: Vec<V> = x.iter().map(|s| rand_gain(&mut rng, f, &[*s], plain)).collect();
                 ex.push(json!({"ev":"f_mul","a":{"fmt":f.name,"n":n,"x":vjs(f,&x),"y":vjs(&fl,&y)}}));
                 let x = frame(&mut rng);
                 ex.push(json!({"ev":"f_to_signed","a":{"fmt":f.name,"n":n,"x":vjs(f,&x)}}));
@@ -1324,15 +1358,15 @@ fn gen(seed: u64, size: &str, path: &str) {
         }
     }
     // ---- C10: views.  every (N, L <= 2N+1) x shared/mut/boxed on i16 and f32, all formats on N in {1,2,3,32} and the bare sample
+    // (small executions -- one per (format, N, L, kind) -- so that a rejected event is replayed with little else)
     let kinds = ["shared", "mut", "boxed"];
-    for f in FMTS.iter() {
+    for f in slice_fmts.iter() {
         let all_n = f.name == "i16" || f.name == "f32";
         for n in 0..=32usize {
             if !(all_n || [0, 1, 2, 3, 32].contains(&n)) {
                 continue;
             }
             let nn = n.max(1);
-            let mut ex = vec![reset("slice", f, n, "views")];
             // thorough: every length 0..=2N+1; quick: the lengths around the multiples of N (TLC's stimuli hold every length)
             let mut lens: Vec<usize> = if thorough {
                 (0..=2 * nn + 1).collect()
@@ -1353,28 +1387,32 @@ fn gen(seed: u64, size: &str, path: &str) {
             }
             for l in lens {
                 for kind in kinds {
+                    let mut ex = vec![reset("slice", f, n, "views")];
                     let routes: Vec<&str> = if thorough || l > 2 * nn + 1 { vec!["to", "from"] } else { vec![*rng.pick(&["to", "from"])] };
                     for route in routes {
                         let x: Vec<V> = (0..l).map(|_| rand_sample(&mut rng, f)).collect();
                         let w: Vec<V> = (0..l).map(|_| rand_sample(&mut rng, f)).collect();
                         ex.push(json!({"ev":"to_frames","a":{"fmt":f.name,"n":n,"len":l,"kind":kind,"route":route,"x":vjs(f,&x),"w":vjs(f,&w)}}));
                     }
+                    execs.push(ex);
                 }
             }
-            for m in [0usize, 1, 2, rng.range(3, if thorough { 40 } else { 8 }) as usize] {
-                for kind in kinds {
+            for kind in kinds {
+                let mut ex = vec![reset("slice", f, n, "views")];
+                for m in [0usize, 1, 2, rng.range(3, if thorough { 40 } else { 8 }) as usize] {
                     for route in ["to", "from"] {
                         let x: Vec<V> = (0..m * nn).map(|_| rand_sample(&mut rng, f)).collect();
                         let w: Vec<V> = (0..m * nn).map(|_| rand_sample(&mut rng, f)).collect();
                         ex.push(json!({"ev":"to_samples","a":{"fmt":f.name,"n":n,"len":m,"kind":kind,"route":route,"x":vframes(f,&x,nn),"w":vjs(f,&w)}}));
                     }
                 }
+                execs.push(ex);
             }
-            execs.push(ex);
         }
     }
-    // ---- C10: in-place operations, every pair of lengths in 0..4 (and longer equal ones)
-    for f in FMTS.iter() {
+    // ---- C10: in-place operations: every pair of lengths in 0..=4 on the bare sample and widths 1, 2, 3 (thorough: on
+    // every chosen width), a diagonal-and-neighbours subset on width 32 and two (six) random widths; longer slices too
+    for f in slice_fmts.iter() {
         let sg = fm(f.sg);
         let af = fm(sg.fl);
         let mut widths: Vec<usize> = vec![0, 1, 2, 3, 32];
@@ -1383,11 +1421,12 @@ fn gen(seed: u64, size: &str, path: &str) {
         }
         for n in widths {
             let nn = n.max(1);
-            let mut ex = vec![reset("slice", f, n, "inplace")];
             let mut pairs: Vec<(usize, usize)> = Vec::new();
-            for la in 0..=4 {
-                for lb in 0..=4 {
-                    pairs.push((la, lb));
+            for la in 0..=4usize {
+                for lb in 0..=4usize {
+                    if thorough || nn <= 3 || la == lb || la + 1 == lb || (la == 3 && lb == 0) || (la == 0 && lb == 2) {
+                        pairs.push((la, lb));
+                    }
                 }
             }
             for _ in 0..(if thorough { 3 } else { 1 }) {
@@ -1395,8 +1434,9 @@ fn gen(seed: u64, size: &str, path: &str) {
                 pairs.push((l, l));
                 pairs.push((l, l + 1));
             }
-            for (la, lb) in pairs {
-                for op in ["zip_map", "write", "add", "add_amp", "equilibrium", "map"] {
+            for op in ["zip_map", "write", "add", "add_amp", "equilibrium", "map"] {
+                let mut ex = vec![reset("slice", f, n, "inplace")];
+                for &(la, lb) in pairs.iter() {
                     let two = !(op == "equilibrium" || op == "map");
                     if !two && lb != 0 && lb != la + 1 {
                         continue;
@@ -1412,7 +1452,7 @@ fn gen(seed: u64, size: &str, path: &str) {
                                 // (for add_amp: whatever gain of magnitude < 1 is applied to it first)
                                 match (f.float, xa.get(k)) {
                                     (true, _) => V::F(rand_float(&mut rng, &sg, 1.0)),
-                                    (false, Some(V::I(a))) if op == "add" => rand_offset(&mut rng, f, &[V::I(*a)]),
+                                    (false, Some(V::I(a))) if op == "add" => rand_offset(&mut rng, f, &[V::I(*a)], false),
                                     (false, Some(V::I(a))) => {
                                         let i = img(f, *a);
                                         let room = (sg.half() - 1 - i).min(i + sg.half()) / 2;
@@ -1429,8 +1469,8 @@ fn gen(seed: u64, size: &str, path: &str) {
                     ex.push(json!({"ev":"inplace","a":{"fmt":f.name,"n":n,"op":op,"la":la,"lb":lb,
                         "xa":vframes(f,&xa,nn),"xb":xbj,"ys":vframes(f,&ys,nn),"ampf":vjs(&af,&amp)}}));
                 }
+                execs.push(ex);
             }
-            execs.push(ex);
         }
     }
     write_stimuli(path, &execs);
